@@ -16,6 +16,10 @@ SPEC = {
         "name": "process-watchdog", "group": "huci", "key": "C05P", "model": False, "tags": ["C05"],
         "n_quick": 24, "n_thorough": 400, "max_shards": 2, "min_per_shard": 12, "timeout": 3000, "stat": _p_stat,
     }, {
+        "name": "deep-searches-oracle-only", "group": "hsearch", "key": "SEARCHDEEP", "model": False, "tags": ["C05"],
+        "n_quick": 1200, "n_thorough": 60000, "min_per_shard": 40, "timeout": 6000, "search_factor": 2,
+        "nontrivial": search_nontrivial, "stat": search_stat,
+    }, {
         # "promptly after stop", wherever the stop lands between the reader and the search goroutine: the forced random
         # schedules of C06 (no model involved), read for the clause "every go is answered once its stop has been consumed"
         "name": "stop-at-every-scheduling-point", "group": "huci", "key": "C06", "model": False, "tags": ["C05"],
